@@ -31,6 +31,8 @@ type letter struct {
 	kind  int
 	pid   uint16 // protocol id of the segment
 	data  []byte // kMsg/kMalformed: the segment payload; kTruncated: the full payload of which only half is sent
+	rep   int    // kMsg: number of back-to-back copies (0 = 1): a burst of surplus replies
+	init  bool   // the segment travels in the initiator direction even though the peer is the responder (full duplex)
 }
 
 // peerIO is the raw peer's view of the connection: it reads whole segments and counts the
@@ -78,9 +80,11 @@ func (p *peerIO) await(id uint16, n int, d time.Duration) bool {
 	return true
 }
 
-func (p *peerIO) send(id uint16, payload []byte) {
+func (p *peerIO) send(id uint16, payload []byte) { p.sendDir(id, payload, p.fromResp) }
+
+func (p *peerIO) sendDir(id uint16, payload []byte, fromResp bool) {
 	// a write to a connection the local side has already closed fails: the peer does not care
-	_, _ = p.c.Write(s2lib.Segment(id, p.fromResp, payload))
+	_, _ = p.c.Write(s2lib.Segment(id, fromResp, payload))
 }
 
 func enc(m protocol.Message) []byte {
@@ -91,17 +95,18 @@ func enc(m protocol.Message) []byte {
 	return b
 }
 
-func versionMap(ntn bool) protocol.ProtocolVersionMap {
+func versionMap(ntn, duplex bool) protocol.ProtocolVersionMap {
 	mode := protocol.ProtocolModeNodeToClient
 	if ntn {
 		mode = protocol.ProtocolModeNodeToNode
 	}
 	// peer sharing is advertised so that the peer-sharing client is usable
-	return protocol.GetProtocolVersionMap(mode, magic, false, true, false)
+	// the diffusion-mode flag is "initiator only": false advertises initiator-and-responder
+	return protocol.GetProtocolVersionMap(mode, magic, !duplex, true, false)
 }
 
 // handshakeAsResponder reads ProposeVersions and accepts the highest proposed version.
-func (p *peerIO) handshakeAsResponder(ntn bool) bool {
+func (p *peerIO) handshakeAsResponder(ntn, duplex bool) bool {
 	if !p.await(handshake.ProtocolId, 1, 5*time.Second) {
 		return false
 	}
@@ -121,7 +126,7 @@ func (p *peerIO) handshakeAsResponder(ntn bool) bool {
 	}
 	sort.Ints(vs)
 	top := uint16(vs[len(vs)-1])
-	vm := versionMap(ntn)
+	vm := versionMap(ntn, duplex)
 	vd, ok := vm[top]
 	if !ok {
 		return false
@@ -132,7 +137,7 @@ func (p *peerIO) handshakeAsResponder(ntn bool) bool {
 
 // handshakeAsInitiator proposes the full version table and waits for the answer.
 func (p *peerIO) handshakeAsInitiator(ntn bool) bool {
-	p.send(handshake.ProtocolId, enc(handshake.NewMsgProposeVersions(versionMap(ntn))))
+	p.send(handshake.ProtocolId, enc(handshake.NewMsgProposeVersions(versionMap(ntn, false))))
 	return p.await(handshake.ProtocolId, 1, 5*time.Second)
 }
 
@@ -141,6 +146,7 @@ type peerStep struct {
 	pid  uint16
 	wait int      // request messages of protocol pid to wait for first (cumulative count is kept by the peer)
 	send [][]byte // payloads sent afterwards, one segment each
+	init bool     // sent in the initiator direction (full duplex)
 }
 
 func runPeer(b *rt.Conn, sp *api, script []letter) {
@@ -149,7 +155,7 @@ func runPeer(b *rt.Conn, sp *api, script []letter) {
 	if sp.server {
 		ok = p.handshakeAsInitiator(sp.ntn)
 	} else {
-		ok = p.handshakeAsResponder(sp.ntn)
+		ok = p.handshakeAsResponder(sp.ntn, sp.duplex)
 	}
 	if !ok {
 		rt.Log("harness: peer could not complete the handshake")
@@ -165,7 +171,7 @@ func runPeer(b *rt.Conn, sp *api, script []letter) {
 			}
 		}
 		for _, pl := range st.send {
-			p.send(st.pid, pl)
+			p.sendDir(st.pid, pl, p.fromResp && !st.init)
 		}
 	}
 	if sp.reqs > 0 {
@@ -181,7 +187,9 @@ func runPeer(b *rt.Conn, sp *api, script []letter) {
 		}
 		switch l.kind {
 		case kMsg, kMalformed:
-			p.send(l.pid, l.data)
+			for k := 0; k < max(l.rep, 1); k++ {
+				p.sendDir(l.pid, l.data, p.fromResp && !l.init)
+			}
 		case kTruncated:
 			seg := s2lib.Segment(l.pid, p.fromResp, l.data)
 			_, _ = b.Write(seg[:8+len(l.data)/2])
